@@ -996,10 +996,13 @@ PROGRAM = "funsor/ops/program.py"
 NUMPY_LOG = "funsor/einsum/numpy_log.py"
 fire("c18-op-reduce-drops-falsy-params", "C18", OP,
      "        return apply, (type(self), (), self.defaults)", "        params = {k: v for k, v in self.defaults.items() if v}\n        return apply, (type(self), (), params)", "R18.9", "Op.__reduce__")
-fire("c18-as-code-no-trailing-comma", "C18", PROGRAM, '            let(f"{op}({args},)")', '            let(f"{op}({args})")', "R18.10", "as_code")
-silent("c18-s-as-code-comma-per-argument", "C18", PROGRAM,
-       '            args = ", ".join(f"v{arg_id}" for arg_id in arg_ids)\n            let(f"{op}({args},)")',
-       '            args = " ".join(f"v{arg_id}," for arg_id in arg_ids)\n            let(f"{op}({args})")')
+fire("c18-as-code-no-trailing-comma", "C18", PROGRAM,
+     '            args = " ".join(f"v{arg_id}," for arg_id in arg_ids)\n', '            args = ", ".join(f"v{arg_id}" for arg_id in arg_ids)\n', "R18.10", "as_code")
+fire("c18-as-code-one-comma-after-arguments", "C18", PROGRAM,
+     '            args = " ".join(f"v{arg_id}," for arg_id in arg_ids)\n            let(f"{op}({args})")',
+     '            args = ", ".join(f"v{arg_id}" for arg_id in arg_ids)\n            let(f"{op}({args},)")', "R18.10", "as_code")
+silent("c18-s-as-code-comma-per-argument-no-space", "C18", PROGRAM,
+       '            args = " ".join(f"v{arg_id}," for arg_id in arg_ids)\n', '            args = "".join(f"v{arg_id}, " for arg_id in arg_ids)\n')
 fire("c18-compile-allocates-id-for-arg-tuple", "C18", COMPILER,
      "        if isinstance(f, tuple):\n            continue  # Skip from Tuple directly to its elements.\n        ids[f] = len(ids)\n",
      "        ids[f] = len(ids)\n        if isinstance(f, tuple):\n            continue  # Skip from Tuple directly to its elements.\n", "R18.11", "compile_funsor")
